@@ -8,6 +8,7 @@
 import Rtamt.Py.GeneratedIAOff
 import Rtamt.Discrete.IA
 import Rtamt.Discrete.Offline
+import RtamtProofs.GenOffMethods
 
 namespace Rtamt.Py
 open Rtamt Val
@@ -38,10 +39,381 @@ def insensOf (sem : Sem) (outNonempty inNonempty : Bool) : Bool :=
   | .outRob | .outVac => !outNonempty
   | .inRob | .inVac => !inNonempty
 
+namespace IAOff
+
+/-! ### the shape of the four translated methods -/
+
+def iaChain : S :=
+  (.ite (.bin .eq (.loc "$operator") (.cmpc .eq)) (.seq (.setLoc "sat_val" (.bin .eq (.idx (.loc "left") (.loc "i")) (.idx (.loc "right") (.loc "i")))) (.setLoc "val" (.un .neg (.un .abs (.bin .sub (.idx (.loc "left") (.loc "i")) (.idx (.loc "right") (.loc "i"))))))) (.ite (.bin .eq (.loc "$operator") (.cmpc .ne)) (.seq (.setLoc "sat_val" (.bin .ne (.idx (.loc "left") (.loc "i")) (.idx (.loc "right") (.loc "i")))) (.setLoc "val" (.un .neg (.un .neg (.un .abs (.bin .sub (.idx (.loc "left") (.loc "i")) (.idx (.loc "right") (.loc "i")))))))) (.ite (.bin .eq (.loc "$operator") (.cmpc .ge)) (.seq (.setLoc "sat_val" (.bin .ge (.idx (.loc "left") (.loc "i")) (.idx (.loc "right") (.loc "i")))) (.setLoc "val" (.bin .sub (.idx (.loc "left") (.loc "i")) (.idx (.loc "right") (.loc "i"))))) (.ite (.bin .eq (.loc "$operator") (.cmpc .gt)) (.seq (.setLoc "sat_val" (.bin .gt (.idx (.loc "left") (.loc "i")) (.idx (.loc "right") (.loc "i")))) (.setLoc "val" (.bin .sub (.idx (.loc "left") (.loc "i")) (.idx (.loc "right") (.loc "i"))))) (.ite (.bin .eq (.loc "$operator") (.cmpc .le)) (.seq (.setLoc "sat_val" (.bin .le (.idx (.loc "left") (.loc "i")) (.idx (.loc "right") (.loc "i")))) (.setLoc "val" (.bin .sub (.idx (.loc "right") (.loc "i")) (.idx (.loc "left") (.loc "i"))))) (.ite (.bin .eq (.loc "$operator") (.cmpc .lt)) (.seq (.setLoc "sat_val" (.bin .lt (.idx (.loc "left") (.loc "i")) (.idx (.loc "right") (.loc "i")))) (.setLoc "val" (.bin .sub (.idx (.loc "right") (.loc "i")) (.idx (.loc "left") (.loc "i"))))) (.raise .other)))))))
+
+def iaLoopBody : S :=
+  .seq iaChain (.seq (.appendLoc "sat_out" (.loc "sat_val")) (.appendLoc "val_out" (.loc "val")))
+
+def iaRobBody : S :=
+  (.seq (.setLoc "val" (.ifExp (.bin .eq (.loc "sample") (.bin .eq (.int 0) (.int 0))) .pinf .ninf)) (.appendLoc "out" (.loc "val")))
+
+def iaVacBody : S := (.appendLoc "out" (.loc "$zero"))
+
+def iaTail (v : String) (second : S) : S :=
+  .seq (.setLoc "out" .emptyList) (.ite (.un .not (.un .truthy (.loc v)))
+    (.forEnum "i" "sample" (.loc "sat_out") second) (.setLoc "out" (.loc "val_out")))
+
+def iaBody (v : String) (second : S) : S :=
+  .seq (.setLoc "sat_out" .emptyList) (.seq (.setLoc "val_out" .emptyList)
+    (.seq (.for_ "i" (.int 0) (.len (.loc "left")) iaLoopBody) (iaTail v second)))
+
+def iaMethod (v : String) (second : S) : OffMethod :=
+  { name := "visitPredicate", kids := ["left", "right"], interval := false, body := iaBody v second,
+    ret := some (.loc "out") }
+
+theorem outRob_shape : Gen.IAOff.IAStlOutputRobustnessDiscreteTimeOfflineAstVisitor = iaMethod "$out_vars" iaRobBody := rfl
+theorem inRob_shape : Gen.IAOff.IAStlInputRobustnessDiscreteTimeOfflineAstVisitor = iaMethod "$in_vars" iaRobBody := rfl
+theorem inVac_shape : Gen.IAOff.IAStlInputVacuityDiscreteTimeOfflineAstVisitor = iaMethod "$in_vars" iaVacBody := rfl
+theorem outVac_shape : Gen.IAOff.IAStlOutputVacuityDiscreteTimeOfflineAstVisitor = iaMethod "$out_vars" iaVacBody := rfl
+/-! ### values -/
+
+/-- The list of Booleans built by `x = []; x.append(..)`. -/
+def bv (bs : List Bool) : V α :=
+  match bs with
+  | [] => .dlist []
+  | _ :: _ => .blist bs
+
+omit [Val α] in
+theorem appendV_bv (bs : List Bool) (b : Bool) : appendV (bv bs : V α) (.bool b) = .ok (bv (bs ++ [b])) := by
+  cases bs <;> rfl
+
+theorem evalBin_eq_num (x y : α) : evalBin .eq (.num x) (.num y) = .ok (.bool (numEq x y)) := rfl
+theorem evalBin_ne_num (x y : α) : evalBin .ne (.num x) (.num y) = .ok (.bool (!numEq x y)) := rfl
+theorem evalBin_lt_num (x y : α) : evalBin .lt (.num x) (.num y) = .ok (.bool (Val.lt x y)) := rfl
+theorem evalBin_gt_num (x y : α) : evalBin .gt (.num x) (.num y) = .ok (.bool (Val.lt y x)) := rfl
+theorem evalBin_le_num (x y : α) : evalBin .le (.num x) (.num y) = .ok (.bool (!Val.lt y x)) := rfl
+theorem evalBin_ge_num (x y : α) : evalBin .ge (.num x) (.num y) = .ok (.bool (!Val.lt x y)) := rfl
+theorem evalBin_eq_bool (x y : Bool) : evalBin (α := α) .eq (.bool x) (.bool y) = .ok (.bool (x == y)) := rfl
+theorem evalBin_eq_int (x y : Int) : evalBin (α := α) .eq (.int x) (.int y) = .ok (.bool (decide (x = y))) := by
+  unfold evalBin; rw [coerce_int_int]
+theorem evalUn_not_bool (b : Bool) : evalUn (α := α) .not (.bool b) = .ok (.bool (!b)) := rfl
+theorem evalUn_truthy_bool (b : Bool) : evalUn (α := α) .truthy (.bool b) = .ok (.bool b) := rfl
+
+theorem evalE_ifExp (env : Env α) (c a b : E) :
+    evalE env (.ifExp c a b) = (evalE env c >>= fun v =>
+      match v with
+      | .bool true => evalE env a
+      | .bool false => evalE env b
+      | _ => .error .type) := by
+  simp only [evalE]; rfl
+
+theorem exec_forEnum_bv {i x : String} {it : E} {body : S} {env : Env α} (bs : List Bool)
+    (hit : evalE env it = .ok (bv bs)) :
+    exec (.forEnum i x it body) env =
+      bs.zipIdx.foldlM (fun env p =>
+        exec body { env with loc := setKey x (.bool p.1) (setKey i (.int (p.2 : Nat)) env.loc) }) env := by
+  cases bs with
+  | nil => simp [exec, hit, bv, ok_bind, asList, pure, Except.pure]
+  | cons b bs => simp [exec, hit, bv, ok_bind]
+
+/-- What the translated first loop stores in `val_out` for one pair of samples. -/
+def iaVal (c : Cmp) (a b : α) : α :=
+  match c with
+  | .ne => Val.neg (Val.neg (Val.abs (Val.sub a b)))
+  | c => c.app a b
+/-- The `if`/`elif` chain of the first loop on two samples. -/
+theorem iaChain_ok (c : Cmp) (env : Env α) (a b : α)
+    (hop : getKey "$operator" env.loc = .ok (.cmp c))
+    (hl : evalE env (.idx (.loc "left") (.loc "i")) = .ok (.num a))
+    (hr : evalE env (.idx (.loc "right") (.loc "i")) = .ok (.num b)) :
+    exec iaChain env = .ok { env with
+      loc := setKey "val" (.num (iaVal c a b)) (setKey "sat_val" (.bool (c.holds a b)) env.loc) } := by
+  have hr1 : ∀ v : V α, evalE { env with loc := setKey "sat_val" v env.loc } (.idx (.loc "left") (.loc "i"))
+      = .ok (.num a) := by
+    intro v; rw [← hl]; simp [evalE_idx, evalE_loc, getKey_setKey_ne]
+  have hr2 : ∀ v : V α, evalE { env with loc := setKey "sat_val" v env.loc } (.idx (.loc "right") (.loc "i"))
+      = .ok (.num b) := by
+    intro v; rw [← hr]; simp [evalE_idx, evalE_loc, getKey_setKey_ne]
+  cases c <;>
+    simp [iaChain, exec_ite, exec_seq, exec_setLoc, exec_raise, evalE_bin, evalE_un, evalE_loc, evalE_cmpc, hop, hl, hr,
+      hr1, hr2, ok_bind, evalBin_eq_cmp, evalBin_eq_num, evalBin_ne_num, evalBin_lt_num, evalBin_gt_num, evalBin_le_num,
+      evalBin_ge_num, evalBin_sub_num, evalUn_neg_num, evalUn_abs_num, iaVal, Cmp.app, Cmp.holds, numEq]
+
+theorem iaChain_err (c : Cmp) (env : Env α) (a : α) (e : PyErr)
+    (hop : getKey "$operator" env.loc = .ok (.cmp c))
+    (hl : evalE env (.idx (.loc "left") (.loc "i")) = .ok (.num a))
+    (hr : evalE env (.idx (.loc "right") (.loc "i")) = .error e) :
+    exec iaChain env = .error e := by
+  cases c <;>
+    simp [iaChain, exec_ite, exec_seq, exec_setLoc, exec_raise, evalE_bin, evalE_loc, evalE_cmpc, hop, hl, hr,
+      ok_bind, error_bind, evalBin_eq_cmp]
+/-! ### the first loop -/
+
+/-- Invariant of the first loop: `t` are the pairs of samples seen so far. -/
+def IAInv (c : Cmp) (o i : Bool) (l r : List α) (env : Env α) (t : List (α × α)) : Prop :=
+  getKey "sat_out" env.loc = .ok (bv (t.map fun p => c.holds p.1 p.2)) ∧
+  getKey "val_out" env.loc = .ok (lv (t.map fun p => iaVal c p.1 p.2)) ∧
+  getKey "left" env.loc = .ok (.list l) ∧ getKey "right" env.loc = .ok (.list r) ∧
+  getKey "$operator" env.loc = .ok (.cmp c) ∧ getKey "$out_vars" env.loc = .ok (.bool o) ∧
+  getKey "$in_vars" env.loc = .ok (.bool i) ∧ getKey "$zero" env.loc = .ok (.num Val.zero)
+
+theorem iaStep (c : Cmp) (o i : Bool) (l r : List α) (k : Nat) (hk : k < l.length) (s : Env α) (t : List (α × α))
+    (h : IAInv c o i l r s t) :
+    simE (IAInv c o i l r) (exec iaLoopBody { s with loc := setKey "i" (.int (k : Nat)) s.loc })
+      (idx l k >>= fun a => idx r k >>= fun b => .ok (t ++ [(a, b)])) := by
+  obtain ⟨h1, h2, h3, h4, h5, h6, h7, h8⟩ := h
+  have hop : getKey "$operator" ({ s with loc := setKey "i" (.int (k : Nat)) s.loc } : Env α).loc = .ok (.cmp c) := by
+    simp [getKey_setKey_ne, h5]
+  have hl : evalE { s with loc := setKey "i" (.int (k : Nat)) s.loc } (.idx (.loc "left") (.loc "i"))
+      = .ok (.num l[k]) := by
+    simp [evalE_idx, evalE_loc, getKey_setKey_ne, getKey_setKey_same, h3, ok_bind, evalIdx_list, idx_lt _ _ hk, Except.map]
+  rw [idx_lt _ _ hk, ok_bind, iaLoopBody, exec_seq]
+  rcases Nat.lt_or_ge k r.length with hkr | hkr
+  · have hr : evalE { s with loc := setKey "i" (.int (k : Nat)) s.loc } (.idx (.loc "right") (.loc "i"))
+        = .ok (.num r[k]) := by
+      simp [evalE_idx, evalE_loc, getKey_setKey_ne, getKey_setKey_same, h4, ok_bind, evalIdx_list, idx_lt _ _ hkr,
+        Except.map]
+    rw [iaChain_ok c _ _ _ hop hl hr, idx_lt _ _ hkr]
+    simp [IAInv, exec_seq, exec_appendLoc, evalE_loc, ok_bind, getKey_setKey_ne, getKey_setKey_same, h1, h2, h3, h4, h5,
+      h6, h7, h8, appendV_bv, appendV_lv]
+  · have hr : evalE { s with loc := setKey "i" (.int (k : Nat)) s.loc } (.idx (.loc "right") (.loc "i"))
+        = .error .index := by
+      simp [evalE_idx, evalE_loc, getKey_setKey_ne, getKey_setKey_same, h4, ok_bind, evalIdx_list, idx_ge _ _ hkr,
+        Except.map]
+    rw [iaChain_err c _ _ _ hop hl hr, idx_ge _ _ hkr]
+    simp [error_bind]
+
+omit [Val α] in
+theorem foldlM_snoc {β : Type} (xs acc : List β) :
+    xs.foldlM (fun t p => (Except.ok (t ++ [p]) : Except PyErr (List β))) acc = .ok (acc ++ xs) := by
+  induction xs generalizing acc with
+  | nil => simp [pure, Except.pure]
+  | cons x xs ih => simp [List.foldlM_cons, ok_bind, ih]
+
+omit [Val α] in
+/-- `loop2` as the index loop that collects the pairs, followed by a map. -/
+theorem loop2_eq_pairs (f : α → α → α) (l r : List α) :
+    ((List.range' 0 l.length).foldlM (fun (t : List (α × α)) k =>
+        idx l k >>= fun a => idx r k >>= fun b => (Except.ok (t ++ [(a, b)]) : Except PyErr _)) []
+      >>= fun t => .ok (t.map fun p => f p.1 p.2)) = loop2 f l r := by
+  rw [foldlM_idx2 (fun t a b => .ok (t ++ [(a, b)]))]
+  rw [foldlM_snoc]
+  unfold loop2
+  split <;> simp [ok_bind, error_bind, map_zip_eq_zipWith]
+/-! ### the second loop -/
+
+omit [Val α] in
+/-- A fold that keeps an invariant indexed by the list produced so far. -/
+theorem foldlM_inv {β : Type} (f : Env α → β → Except PyErr (Env α)) (P : List α → Env α → Prop) (g : β → α)
+    (hstep : ∀ env acc b, P acc env → ∃ env', f env b = .ok env' ∧ P (acc ++ [g b]) env') :
+    ∀ (ps : List β) env acc, P acc env → ∃ env', ps.foldlM f env = .ok env' ∧ P (acc ++ ps.map g) env' := by
+  intro ps
+  induction ps with
+  | nil => intro env acc h; exact ⟨env, rfl, by simpa using h⟩
+  | cons b ps ih =>
+    intro env acc h
+    obtain ⟨env1, h1, hP1⟩ := hstep env acc b h
+    obtain ⟨env2, h2, hP2⟩ := ih env1 _ hP1
+    exact ⟨env2, by simp [List.foldlM_cons, h1, ok_bind, h2], by simpa using hP2⟩
+
+/-- What the second loop appends for one verdict. -/
+def iaG (rob : Bool) (b : Bool) : α := if rob then (if b then Val.pinf else Val.ninf) else Val.zero
+
+/-- What the translated method computes for one pair of samples. -/
+def iaPy (rob : Bool) (c : Cmp) (insens : Bool) (a b : α) : α :=
+  if insens then iaG rob (c.holds a b) else iaVal c a b
+
+theorem iaRob_step (env : Env α) (acc : List α) (b : Bool) (k : Nat)
+    (h : getKey "out" env.loc = .ok (lv acc)) :
+    ∃ env', exec iaRobBody { env with loc := setKey "sample" (.bool b) (setKey "i" (.int (k : Nat)) env.loc) } = .ok env' ∧
+      getKey "out" env'.loc = .ok (lv (acc ++ [iaG true b])) := by
+  cases b <;>
+    simp [iaRobBody, exec_seq, exec_setLoc, exec_appendLoc, evalE_ifExp, evalE_bin, evalE_loc, evalE_int, evalE_pinf,
+      evalE_ninf, evalBin_eq_int, evalBin_eq_bool, ok_bind, getKey_setKey_ne, getKey_setKey_same, h, appendV_lv, iaG]
+
+theorem iaVac_step (env : Env α) (acc : List α) (b : Bool) (k : Nat)
+    (h : getKey "out" env.loc = .ok (lv acc) ∧ getKey "$zero" env.loc = .ok (.num Val.zero)) :
+    ∃ env', exec iaVacBody { env with loc := setKey "sample" (.bool b) (setKey "i" (.int (k : Nat)) env.loc) } = .ok env' ∧
+      (getKey "out" env'.loc = .ok (lv (acc ++ [iaG false b])) ∧ getKey "$zero" env'.loc = .ok (.num Val.zero)) := by
+  simp [iaVacBody, exec_appendLoc, evalE_loc, ok_bind, getKey_setKey_ne, getKey_setKey_same, h.1, h.2, appendV_lv, iaG]
+
+omit [Val α] in
+theorem map_fst_zipIdx {β γ : Type} (g : β → γ) (bs : List β) : bs.zipIdx.map (fun p => g p.1) = bs.map g := by
+  have : (fun p : β × Nat => g p.1) = g ∘ Prod.fst := rfl
+  rw [this, ← List.map_map, List.zipIdx_map_fst]
+
+/-- The part after the first loop. -/
+theorem iaTail_eq (v : String) (rob : Bool) (second : S) (hsec : second = if rob then iaRobBody else iaVacBody)
+    (c : Cmp) (o i bo : Bool) (hv : v = "$out_vars" ∧ bo = o ∨ v = "$in_vars" ∧ bo = i)
+    (l r : List α) (s : Env α) (t : List (α × α)) (h : IAInv c o i l r s t) :
+    (exec (iaTail v second) s >>= fun env => evalE env (.loc "out") >>= retList)
+      = .ok (t.map fun p => iaPy rob c (!bo) p.1 p.2) := by
+  obtain ⟨h1, h2, h3, h4, h5, h6, h7, h8⟩ := h
+  have hvo : v ≠ "out" := by rcases hv with ⟨rfl, _⟩ | ⟨rfl, _⟩ <;> decide
+  have hvv : getKey v s.loc = .ok (.bool bo) := by
+    rcases hv with ⟨rfl, rfl⟩ | ⟨rfl, rfl⟩ <;> assumption
+  rw [iaTail, exec_seq, exec_setLoc, evalE_emptyList, ok_bind, ok_bind, exec_ite]
+  have hc : evalE { s with loc := setKey "out" (.dlist []) s.loc } (.un .not (.un .truthy (.loc v)))
+      = .ok (.bool (!bo)) := by
+    simp [evalE_un, evalE_loc, getKey_setKey_ne _ _ _ _ hvo, hvv, ok_bind, evalUn_truthy_bool, evalUn_not_bool]
+  rw [hc, ok_bind]
+  cases bo with
+  | true =>
+    simp [exec_setLoc, evalE_loc, getKey_setKey_ne, getKey_setKey_same, h2, ok_bind, iaPy]
+  | false =>
+    have hit : evalE { s with loc := setKey "out" (.dlist []) s.loc } (.loc "sat_out")
+        = .ok (bv (t.map fun p => c.holds p.1 p.2)) := by
+      simp [evalE_loc, getKey_setKey_ne, h1]
+    simp only [Bool.not_false]
+    rw [exec_forEnum_bv _ hit]
+    cases rob with
+    | true =>
+      subst hsec
+      obtain ⟨env', he, hP⟩ := foldlM_inv
+        (fun env (p : Bool × Nat) => exec iaRobBody
+          { env with loc := setKey "sample" (.bool p.1) (setKey "i" (.int (p.2 : Nat)) env.loc) })
+        (fun acc env => getKey "out" env.loc = .ok (lv acc)) (fun p => iaG true p.1)
+        (fun env acc p hP => iaRob_step env acc p.1 p.2 hP)
+        (t.map fun p => c.holds p.1 p.2).zipIdx { s with loc := setKey "out" (.dlist []) s.loc } []
+        (by simp [getKey_setKey_same, lv_nil])
+      simp only [if_true]
+      rw [he, ok_bind, evalE_loc, hP, ok_bind, retList_lv, map_fst_zipIdx (iaG true)]
+      simp [iaPy, List.map_map, Function.comp_def]
+    | false =>
+      subst hsec
+      obtain ⟨env', he, hP⟩ := foldlM_inv
+        (fun env (p : Bool × Nat) => exec iaVacBody
+          { env with loc := setKey "sample" (.bool p.1) (setKey "i" (.int (p.2 : Nat)) env.loc) })
+        (fun acc env => getKey "out" env.loc = .ok (lv acc) ∧ getKey "$zero" env.loc = .ok (.num Val.zero))
+        (fun p => iaG false p.1)
+        (fun env acc p hP => iaVac_step env acc p.1 p.2 hP)
+        (t.map fun p => c.holds p.1 p.2).zipIdx { s with loc := setKey "out" (.dlist []) s.loc } []
+        (by simp [getKey_setKey_same, getKey_setKey_ne, lv_nil, h8])
+      simp only [Bool.false_eq_true, if_false]
+      rw [he, ok_bind, evalE_loc, hP.1, ok_bind, retList_lv, map_fst_zipIdx (iaG false)]
+      simp [iaPy, List.map_map, Function.comp_def]
+/-! ### the methods -/
+
+theorem callOff_ia (v : String) (second : S) (l r : List α) (extra : Store α) :
+    callOff (iaMethod v second) [l, r] none extra =
+      (exec (iaBody v second) { self := [], loc := [("left", .list l), ("right", .list r)] ++ extra } >>= fun env =>
+        evalE env (.loc "out") >>= retList) := by
+  unfold callOff
+  simp only [iaMethod, List.length_cons, List.length_nil, ne_eq, not_true_eq_false, if_false, Option.isSome_none]
+  rfl
+
+/-- The translated method, whatever the values are (no law of `Val` is used): the index loop with the point-wise function
+    `iaPy`, which for `!=` on a sensitive predicate is `- -abs(l[i] - r[i])`. -/
+theorem iaMethod_eq (v : String) (rob : Bool) (second : S) (hsec : second = if rob then iaRobBody else iaVacBody)
+    (c : Cmp) (o i bo : Bool) (hv : v = "$out_vars" ∧ bo = o ∨ v = "$in_vars" ∧ bo = i) (l r : List α) :
+    callOff (iaMethod v second) [l, r] none (iaExtra c o i) = loop2 (iaPy rob c (!bo)) l r := by
+  rw [callOff_ia, ← loop2_eq_pairs, iaBody]
+  simp only [exec_seq, exec_setLoc, evalE_emptyList, ok_bind, bind_assoc]
+  refine simE_bind_eq (R := IAInv c o i l r) (fun t => .ok (t.map fun p => iaPy rob c (!bo) p.1 p.2))
+    (sim_for (fun _ => IAInv c o i l r)
+      (fun t k => idx l k >>= fun a => idx r k >>= fun b => .ok (t ++ [(a, b)])) [] 0 l.length l.length ?_ ?_ ?_ ?_ ?_) ?_
+  · exact evalE_int _ _
+  · simp [evalE_len, evalE_loc, getKey_setKey_ne, getKey_cons_same, ok_bind, lenV_list]
+  · omega
+  · simp [IAInv, iaExtra, getKey_setKey_ne, getKey_setKey_same, getKey_cons_same, getKey_cons_ne, bv, lv_nil]
+  · intro k _ hk s t h
+    exact iaStep c o i l r k (by omega) s t h
+  · intro s t h
+    exact iaTail_eq v rob second hsec c o i bo hv l r s t h
+
+end IAOff
+
+open IAOff
+
+/-! ### the result -/
+
+/-- The robustness semantics (±inf by satisfaction), as opposed to the vacuity semantics (`0.0`). -/
+def iaRob : Sem → Bool
+  | .outRob | .inRob => true
+  | _ => false
+
+/-- The translated `visitPredicate` of the class of semantics `sem`, for arbitrary values (no law of `Val` is used): the index loop
+    of the offline visitor (`loop2`, IndexError when the right operand is shorter) with the point-wise function `iaPy`. -/
+theorem genIA_offline_raw (sem : Sem) (m : OffMethod) (hm : iaOffClass sem = some m) (c : Cmp) (o i : Bool) (l r : List α) :
+    callOff m [l, r] none (iaExtra c o i) = loop2 (iaPy (iaRob sem) c (insensOf sem o i)) l r := by
+  cases sem
+  · cases hm
+  · obtain rfl := Option.some.inj hm
+    exact iaMethod_eq "$out_vars" true iaRobBody rfl c o i o (Or.inl ⟨rfl, rfl⟩) l r
+  · obtain rfl := Option.some.inj hm
+    exact iaMethod_eq "$in_vars" true iaRobBody rfl c o i i (Or.inr ⟨rfl, rfl⟩) l r
+  · obtain rfl := Option.some.inj hm
+    exact iaMethod_eq "$in_vars" false iaVacBody rfl c o i i (Or.inr ⟨rfl, rfl⟩) l r
+  · obtain rfl := Option.some.inj hm
+    exact iaMethod_eq "$out_vars" false iaVacBody rfl c o i o (Or.inl ⟨rfl, rfl⟩) l r
+
+/-- `iaPy` is `Bin.app (iaOp …)` except for `!=` on a sensitive predicate, where the source has `- -abs(l - r)` and the
+    mirror (as the standard visitor) `abs(l - r)`. -/
+theorem iaPy_eq_app (sem : Sem) (hs : sem ≠ .standard) (c : Cmp) (ins : Bool) (a b : α)
+    (h : c = .ne → ins = false → Val.neg (Val.neg (Val.abs (Val.sub a b))) = Val.abs (Val.sub a b)) :
+    iaPy (iaRob sem) c ins a b = (iaOp sem c ins).app a b := by
+  cases ins
+  · cases c <;> simp [iaPy, iaOp, iaVal, Bin.app, Cmp.app]
+    exact h rfl rfl
+  · cases sem <;> simp [iaPy, iaOp, iaG, iaRob, Bin.app] at hs ⊢
+
+omit [Val α] in
+theorem loop2_congr (f g : α → α → α) (l r : List α) (h : ∀ p ∈ l.zip r, f p.1 p.2 = g p.1 p.2) :
+    loop2 f l r = loop2 g l r := by
+  unfold loop2
+  rw [← map_zip_eq_zipWith f, ← map_zip_eq_zipWith g, List.map_congr_left h]
+
+/- The statement as first posed,
+
+     theorem genIA_offline (sem : Sem) (m : OffMethod) (hm : iaOffClass sem = some m) (c : Cmp) (o i : Bool) (l r : List α) :
+         callOff m [l, r] none (iaExtra c o i) = loop2 (iaOp sem c (insensOf sem o i)).app l r
+
+   is not provable for an arbitrary `[Val α]` (an operations-only class): for `!=` the source computes
+   `val = - -abs(left[i] - right[i])` (twice negated), the mirror `Cmp.app .ne` — like the standard offline visitor —
+   `abs(l - r)`, and `Val` has no law `neg (neg x) = x`; `genIA_offline_not_lawfree` below is a counterexample.  The two agree
+   as soon as negation is an involution on the values that occur (IEEE doubles: exact, sign bit flipped twice; `LawfulVal.neg_neg`).
+   The hypothesis is needed only for `c = .ne` on a sensitive predicate. -/
+
 /-- The translated `visitPredicate` of the class of semantics `sem` is the index loop of the offline visitor (`loop2`, IndexError when
-    the right operand is shorter) with `Bin.app (iaOp …)`. -/
-theorem genIA_offline (sem : Sem) (m : OffMethod) (hm : iaOffClass sem = some m) (c : Cmp) (o i : Bool) (l r : List α) :
+    the right operand is shorter) with `Bin.app (iaOp …)` — for `!=` on a sensitive predicate provided `- -x = x` on the values
+    `x = abs(l[i] - r[i])` that occur. -/
+theorem genIA_offline_partial (sem : Sem) (m : OffMethod) (hm : iaOffClass sem = some m) (c : Cmp) (o i : Bool) (l r : List α)
+    (hnn : c = .ne → insensOf sem o i = false → ∀ p ∈ l.zip r,
+      Val.neg (Val.neg (Val.abs (Val.sub p.1 p.2))) = Val.abs (Val.sub p.1 p.2)) :
     callOff m [l, r] none (iaExtra c o i) = loop2 (iaOp sem c (insensOf sem o i)).app l r := by
-  sorry
+  rw [genIA_offline_raw sem m hm]
+  have hs : sem ≠ .standard := by rintro rfl; cases hm
+  exact loop2_congr _ _ l r (fun p hp => iaPy_eq_app sem hs c _ p.1 p.2 (fun h1 h2 => hnn h1 h2 p hp))
+
+/-- Every comparison except `!=`: no hypothesis. -/
+theorem genIA_offline_of_ne (sem : Sem) (m : OffMethod) (hm : iaOffClass sem = some m) (c : Cmp) (hc : c ≠ .ne) (o i : Bool)
+    (l r : List α) :
+    callOff m [l, r] none (iaExtra c o i) = loop2 (iaOp sem c (insensOf sem o i)).app l r :=
+  genIA_offline_partial sem m hm c o i l r (fun h => absurd h hc)
+
+/-- Insensitive predicates (all six comparisons): no hypothesis. -/
+theorem genIA_offline_insens (sem : Sem) (m : OffMethod) (hm : iaOffClass sem = some m) (c : Cmp) (o i : Bool)
+    (hi : insensOf sem o i = true) (l r : List α) :
+    callOff m [l, r] none (iaExtra c o i) = loop2 (iaOp sem c true).app l r := by
+  have := genIA_offline_partial sem m hm c o i l r (fun _ h => by rw [hi] at h; cases h)
+  rwa [hi] at this
+
+/-- The statement as first posed, when negation is an involution. -/
+theorem genIA_offline_of_neg_neg (hneg : ∀ x : α, Val.neg (Val.neg x) = x)
+    (sem : Sem) (m : OffMethod) (hm : iaOffClass sem = some m) (c : Cmp) (o i : Bool) (l r : List α) :
+    callOff m [l, r] none (iaExtra c o i) = loop2 (iaOp sem c (insensOf sem o i)).app l r :=
+  genIA_offline_partial sem m hm c o i l r (fun _ _ _ _ => hneg _)
+
+/-- A law-free instance of `Val` in which `- -x ≠ x`. -/
+@[reducible] def skewVal : Val Int :=
+  { lt := fun a b => decide (a < b), neg := fun a => a + 1, abs := fun a => a, add := (· + ·), sub := (· - ·),
+    mul := (· * ·), div := (· / ·), pinf := 1, ninf := -1, zero := 0, sqrt := id, exp := id, ln := id,
+    pow := fun a _ => a, log := fun a _ => a }
+
+/-- The unrestricted statement fails without laws on `Val`: `left = right = [0]`, `!=`, output robustness, a predicate with an output
+    variable — the translated method returns `[- -abs(0 - 0)]`, the mirror `[abs(0 - 0)]`. -/
+theorem genIA_offline_not_lawfree :
+    ¬ (∀ (α : Type) [Val α] (sem : Sem) (m : OffMethod) (_ : iaOffClass sem = some m) (c : Cmp) (o i : Bool) (l r : List α),
+        callOff m [l, r] none (iaExtra c o i) = loop2 (iaOp sem c (insensOf sem o i)).app l r) := by
+  intro h
+  have h1 := @h Int skewVal .outRob _ rfl .ne true true [0] [0]
+  rw [@genIA_offline_raw Int skewVal .outRob _ rfl] at h1
+  simp [loop2, iaPy, insensOf, iaOp, iaVal, Bin.app, Cmp.app] at h1
+  exact absurd h1 (by decide)
 
 end Rtamt.Py
